@@ -3,6 +3,7 @@ package main
 // E0/E1: loading of /repo, SSA construction, call graph, name index.
 
 import (
+	_ "embed"
 	"fmt"
 	"go/ast"
 	"go/token"
@@ -34,6 +35,7 @@ type Prog struct {
 	CHA      *callgraph.Graph
 	ModFuncs []*ssa.Function          // all functions (incl. anonymous) of module packages
 	byName   map[string]*ssa.Function // short name -> function
+	fwdAlias map[string][]string      // callee name -> names of deleted pinned forwarders of it
 	Parent   map[*ssa.Function]*ssa.MakeClosure
 	pkgByRel map[string]*packages.Package
 	Stats    struct {
@@ -141,6 +143,7 @@ func LoadProg(root string, overlay map[string][]byte) *Prog {
 		}
 	}
 	p.assertNoBuildTagsOrUnsafe()
+	p.initForwarderAliases()
 	stableGlobalsProg = p
 	return p
 }
@@ -354,4 +357,92 @@ func constStringVal(s string) string {
 		}
 	}
 	return s
+}
+
+//go:embed baseline_forwarders.txt
+var baselineForwardersRaw string
+
+// forwarderTarget: fn's whole body is one call whose arguments are fn's own parameters in order (the receiver may be
+// replaced by a field of the receiver) and whose results are returned as they are — a pure forwarder. Returns the
+// callee's name.
+func forwarderTarget(p *Prog, fn *ssa.Function) string {
+	if len(fn.Blocks) != 1 || fn.Parent() != nil || fn.Synthetic != "" {
+		return ""
+	}
+	var call *ssa.Call
+	for _, in := range fn.Blocks[0].Instrs {
+		switch x := in.(type) {
+		case *ssa.Call:
+			if call != nil {
+				return ""
+			}
+			call = x
+		case *ssa.FieldAddr, *ssa.UnOp, *ssa.Field, *ssa.Extract, *ssa.Return, *ssa.DebugRef:
+		default:
+			return ""
+		}
+	}
+	if call == nil {
+		return ""
+	}
+	if _, isB := call.Call.Value.(*ssa.Builtin); isB {
+		return ""
+	}
+	params := fn.Params
+	if fn.Signature.Recv() != nil && len(params) > 0 {
+		params = params[1:]
+	}
+	args := call.Call.Args
+	if !call.Call.IsInvoke() && call.Call.Signature().Recv() != nil && len(args) > 0 {
+		args = args[1:]
+	}
+	if len(args) != len(params) {
+		return ""
+	}
+	for i := range args {
+		if args[i] != ssa.Value(params[i]) {
+			return ""
+		}
+	}
+	ret, ok := fn.Blocks[0].Instrs[len(fn.Blocks[0].Instrs)-1].(*ssa.Return)
+	if !ok {
+		return ""
+	}
+	for i, r := range ret.Results {
+		switch x := r.(type) {
+		case *ssa.Call:
+			if x != call || len(ret.Results) != 1 {
+				return ""
+			}
+		case *ssa.Extract:
+			if x.Tuple != ssa.Value(call) || x.Index != i {
+				return ""
+			}
+		default:
+			return ""
+		}
+	}
+	if len(ret.Results) == 0 && call.Call.Signature().Results().Len() != 0 {
+		return ""
+	}
+	names := p.CalleeNames(call)
+	if len(names) == 0 || names[0] == "<dynamic>" {
+		return ""
+	}
+	return names[0]
+}
+
+// initForwarderAliases: a pinned forwarder that no longer exists was inlined at its call sites; a direct call of its
+// target is then ALSO a call of the forwarder as far as the rules' call-site matching is concerned.
+func (p *Prog) initForwarderAliases() {
+	p.fwdAlias = map[string][]string{}
+	for _, l := range strings.Split(baselineForwardersRaw, "\n") {
+		f, g, ok := strings.Cut(strings.TrimSpace(l), "\t")
+		if !ok || f == "" || g == "" {
+			continue
+		}
+		if p.byName[f] == nil {
+			p.fwdAlias[g] = append(p.fwdAlias[g], f)
+		}
+	}
 }
